@@ -821,6 +821,17 @@ func (client *client) checkMaxPacketSize(msg *gmqtt.Message) (valid bool) {
 	return true
 }
 
+// readBytesLimit returns the maximum size of the publish packet that is allowed to be read from the message queue.
+func (client *client) readBytesLimit() uint32 {
+	limit := client.opts.ClientMaxPacketSize
+	// writeLoop may add the topic alias property to the packet after it has been read from the queue:
+	// 3 bytes for the property, and it can enlarge both the property length and the remaining length by 1 byte.
+	if client.version == packets.Version5 && client.opts.ClientTopicAliasMax > 0 && limit > 5 {
+		limit -= 5
+	}
+	return limit
+}
+
 func (client *client) write(packets packets.Packet) {
 	select {
 	case <-client.close:
